@@ -276,6 +276,11 @@ func (c *Channel) Invoke(ctx context.Context, method string, req, resp interface
 		case r, ok := <-ch:
 			if !ok {
 				// no more messages
+				if err := ctx.Err(); err != nil {
+					// the server may have abandoned frames because
+					// the context ended, so what we got is incomplete
+					return internal.TranslateContextError(err)
+				}
 				if !gotResponse {
 					return io.EOF
 				}
